@@ -55,7 +55,7 @@ def run(res):
     from props.theorems import THEOREMS
     prove_obligations(res, THEOREMS.get("C05", []))
     files, bad = compressed_files(rng, 500 if thorough else 45, max_n=60)
-    sparse, bad2 = compressed_files(rng, 60 if thorough else 8, max_n=1500, shapes=["sparse", "rl_wide"], orders=[0, 1], levels=[3, 8])
+    sparse, bad2 = compressed_files(rng, 60 if thorough else 8, max_n=1500, shapes=["sparse", "rl_wide", "zipf"], orders=[0, 1], levels=[3, 8])
     gfiles = grammar_files(rng, 100 if thorough else 12)
     res.oblige("K:valid files were produced", "K", not bad and not bad2, str((bad + bad2)[:1])[:300])
     qs, meta = [], []
